@@ -152,7 +152,11 @@ func (x Signer) Sign(data []byte) ([]byte, error) {
 	}
 }
 
-// same as in neofs-sdk-go/crypto/ecdsa (unexported there).
+// SaltMessageWalletConnect builds the message signed under the WalletConnect
+// scheme from base64 data and salt (same as the unexported function of
+// neofs-sdk-go/crypto/ecdsa; written from the WalletConnect message format).
+func SaltMessageWalletConnect(data, salt []byte) []byte { return saltMessageWalletConnect(data, salt) }
+
 func saltMessageWalletConnect(data, salt []byte) []byte {
 	saltedLen := hex.EncodedLen(len(salt)) + len(data)
 	b := make([]byte, 4+io.GetVarSize(saltedLen)+saltedLen+2)
